@@ -197,7 +197,10 @@ package agent
 // Transit: a relayed STREAM_DATA frame carries the received payload and flags unchanged.
 
 //@ func (*Agent).handleStreamData
-//@ prop C07
+//@ prop C07 C16
+//@ at[C16] call SendToPeer#0 assert upRelay != nil && peerID == upRelay.UpstreamPeer && upRelay.UpstreamID == frame.StreamID && $1 == upRelay.DownstreamPeer && $2.StreamID == upRelay.DownstreamID
+//@ at[C16] call SendToPeer#1 assert downRelay != nil && peerID == downRelay.DownstreamPeer && downRelay.DownstreamID == frame.StreamID && $1 == downRelay.UpstreamPeer && $2.StreamID == downRelay.UpstreamID
+//@ note C16 (transit): a data frame is relayed only along the tunnel whose id on the side of the frame's source peer is the frame's stream id and whose peer on that side is the source peer, to that tunnel's other side (peer and id)
 //@ modifies *, c07sent
 //@ at call SendToPeer#0 assert $2.Payload == frame.Payload && $2.Flags == frame.Flags && $2.Type == protocol.FrameStreamData
 //@ at call SendToPeer#1 assert $2.Payload == frame.Payload && $2.Flags == frame.Flags && $2.Type == protocol.FrameStreamData
@@ -869,8 +872,9 @@ package agent
 //@ at call SendToPeer assert !c04data($2.Type)
 
 //@ func (*Agent).handleStreamClose
-//@ prop C04
+//@ prop C04 C16
 //@ modifies *
+//@ at[C16] call SendToPeer assert entry != nil && ((fromUpstream && entry.UpstreamPeer == peerID && entry.UpstreamID == frame.StreamID && $1 == entry.DownstreamPeer && $2.StreamID == entry.DownstreamID) || (!fromUpstream && entry.DownstreamPeer == peerID && entry.DownstreamID == frame.StreamID && $1 == entry.UpstreamPeer && $2.StreamID == entry.UpstreamID))
 //@ at call SendToPeer assert !c04data($2.Type)
 
 //@ func (*Agent).handleStreamOpenErr
@@ -879,8 +883,9 @@ package agent
 //@ at call SendToPeer assert !c04data($2.Type)
 
 //@ func (*Agent).handleStreamReset
-//@ prop C04
+//@ prop C04 C16
 //@ modifies *
+//@ at[C16] call SendToPeer assert entry != nil && ((fromUpstream && entry.UpstreamPeer == peerID && entry.UpstreamID == frame.StreamID && $1 == entry.DownstreamPeer && $2.StreamID == entry.DownstreamID) || (!fromUpstream && entry.DownstreamPeer == peerID && entry.DownstreamID == frame.StreamID && $1 == entry.UpstreamPeer && $2.StreamID == entry.UpstreamID))
 //@ at call SendToPeer assert !c04data($2.Type)
 
 //@ func (*Agent).handleUDPClose
